@@ -48,6 +48,7 @@ type Operand struct {
 	Backing interface{} // typed slice: the root storage
 	Off     []int       // Off[r] = index in Backing of the logical element of row-major rank r
 	Eng     tensor.Engine // engine attached to the root tensor (nil: the default engine)
+	specs   []tensor.Slice // S/SS layouts: the slices that cut D out of Root (so that the view can be cut again from a masked parent)
 	keep    []*tensor.Dense
 }
 
@@ -221,7 +222,31 @@ func (op *Operand) consOpts(o ...tensor.ConsOpt) []tensor.ConsOpt {
 // AttachMask attaches a mask given per logical position. Only for operands that own their whole
 // storage (the library's masks are indexed by storage offset and must have the storage's length).
 func (op *Operand) AttachMask(logical []bool) error {
-	if op.D != op.Root || op.BackingLen() != len(op.Off) {
+	if op.D != op.Root {
+		// a view: the parent gets the mask (the view's elements as asked, the rest unmasked) and the view is cut again,
+		// which is how a masked view comes about in a program
+		if op.specs == nil {
+			return fmt.Errorf("mask can only be attached to a tensor owning its storage or to a plain slice")
+		}
+		mask := make([]bool, op.BackingLen())
+		for r, o := range op.Off {
+			mask[o] = logical[r]
+		}
+		op.Root.MaskFromSlice(mask)
+		v, err := op.Root.Slice(op.specs...)
+		if err != nil {
+			return err
+		}
+		vd, ok := v.(*tensor.Dense)
+		if !ok || !vd.IsMasked() {
+			return fmt.Errorf("mask not attached")
+		}
+		op.D = vd
+		op.M = op.M.Clone()
+		op.M.Mask = append([]bool(nil), logical...)
+		return nil
+	}
+	if op.BackingLen() != len(op.Off) {
 		return fmt.Errorf("mask can only be attached to a tensor owning its storage")
 	}
 	mask := make([]bool, op.BackingLen())
@@ -361,6 +386,7 @@ func (op *Operand) build(m *model.ND, layout string, rng *rand.Rand) error {
 			return err
 		}
 		op.D, op.Root, op.Backing, op.Off = v.(*tensor.Dense), parent, b, off
+		op.specs = specs
 		op.keep = append(op.keep, parent)
 		op.Recipe["parent"] = pshape
 		op.Recipe["slices"] = specStrings(mspecs)
